@@ -49,6 +49,10 @@ type joinRig struct {
 
 	// per join instance
 	mkJoin func() (joinInst, error)
+	// joinCtx, when set, is the context handed to the next join (instead of g.ctx)
+	joinCtx context.Context
+	// emptySrc deletes every source object
+	emptySrc func()
 	// expected content of the join given the current caches
 	expect func() (kit.Snap, error)
 	// random source mutation
@@ -157,11 +161,26 @@ func lselOf(m map[string]string, rng *kit.Rng) *metav1.LabelSelector {
 	return &metav1.LabelSelector{MatchLabels: m}
 }
 
-func newJoinRig(kind string, core *kit.Core) (*joinRig, error) {
+func (g *joinRig) jctx() context.Context {
+	if g.joinCtx != nil {
+		return g.joinCtx
+	}
+	return g.ctx
+}
+
+func newJoinRig(kind string, core *kit.Core, dstLatency time.Duration) (*joinRig, error) {
 	g := &joinRig{kind: kind, core: core, log: kit.NewLog(core)}
 	base, cancel := context.WithCancel(context.Background())
 	g.ctx, g.cancel = logutil.NewContext(base, g.log), cancel
 	g.dstSrv = kit.NewServer(core, func() runtime.Object { return &corev1.PodList{} })
+	if dstLatency > 0 {
+		g.dstSrv.ListPlan = func(i int) kit.ListFault {
+			if i == 1 {
+				return kit.ListFault{Latency: dstLatency}
+			}
+			return kit.ListFault{}
+		}
+	}
 	pods, err := pod.BuildController(g.ctx, g.log, g.dstSrv)
 	if err != nil {
 		return nil, err
@@ -229,9 +248,9 @@ func newJoinRig(kind string, core *kit.Core) (*joinRig, error) {
 			var c pod.Controller
 			var err error
 			if kind == "service-pod-with" {
-				c, err = join.ServicePodsWith(g.ctx, src, pods, rule)
+				c, err = join.ServicePodsWith(g.jctx(), src, pods, rule)
 			} else {
-				c, err = join.ServicePods(g.ctx, src, pods)
+				c, err = join.ServicePods(g.jctx(), src, pods)
 			}
 			if err != nil {
 				return joinInst{}, err
@@ -258,7 +277,7 @@ func newJoinRig(kind string, core *kit.Core) (*joinRig, error) {
 			return &corev1.ReplicationController{ObjectMeta: om(ns, nm), Spec: corev1.ReplicationControllerSpec{Selector: e10Sels[rng.Intn(len(e10Sels))], Template: &t}}
 		}, "rc")
 		g.mkJoin = func() (joinInst, error) {
-			c, err := join.RCPods(g.ctx, src, pods)
+			c, err := join.RCPods(g.jctx(), src, pods)
 			if err != nil {
 				return joinInst{}, err
 			}
@@ -283,7 +302,7 @@ func newJoinRig(kind string, core *kit.Core) (*joinRig, error) {
 			return &appsv1.ReplicaSet{ObjectMeta: om(ns, nm), Spec: appsv1.ReplicaSetSpec{Selector: lselOf(e10Sels[rng.Intn(len(e10Sels))], rng), Template: tmpl(rng)}}
 		}, "rs")
 		g.mkJoin = func() (joinInst, error) {
-			c, err := join.RSPods(g.ctx, src, pods)
+			c, err := join.RSPods(g.jctx(), src, pods)
 			if err != nil {
 				return joinInst{}, err
 			}
@@ -308,7 +327,7 @@ func newJoinRig(kind string, core *kit.Core) (*joinRig, error) {
 			return &appsv1.Deployment{ObjectMeta: om(ns, nm), Spec: appsv1.DeploymentSpec{Selector: lselOf(e10Sels[rng.Intn(len(e10Sels))], rng), Template: tmpl(rng)}}
 		}, "deployment")
 		g.mkJoin = func() (joinInst, error) {
-			c, err := join.DeploymentPods(g.ctx, src, pods)
+			c, err := join.DeploymentPods(g.jctx(), src, pods)
 			if err != nil {
 				return joinInst{}, err
 			}
@@ -333,7 +352,7 @@ func newJoinRig(kind string, core *kit.Core) (*joinRig, error) {
 			return &appsv1.DaemonSet{ObjectMeta: om(ns, nm), Spec: appsv1.DaemonSetSpec{Selector: lselOf(e10Sels[rng.Intn(len(e10Sels))], rng), Template: tmpl(rng)}}
 		}, "daemonset")
 		g.mkJoin = func() (joinInst, error) {
-			c, err := join.DaemonSetPods(g.ctx, src, pods)
+			c, err := join.DaemonSetPods(g.jctx(), src, pods)
 			if err != nil {
 				return joinInst{}, err
 			}
@@ -358,7 +377,7 @@ func newJoinRig(kind string, core *kit.Core) (*joinRig, error) {
 			return &appsv1.StatefulSet{ObjectMeta: om(ns, nm), Spec: appsv1.StatefulSetSpec{Selector: lselOf(e10Sels[rng.Intn(len(e10Sels))], rng), Template: tmpl(rng)}}
 		}, "statefulset")
 		g.mkJoin = func() (joinInst, error) {
-			c, err := join.StatefulSetPods(g.ctx, src, pods)
+			c, err := join.StatefulSetPods(g.jctx(), src, pods)
 			if err != nil {
 				return joinInst{}, err
 			}
@@ -383,7 +402,7 @@ func newJoinRig(kind string, core *kit.Core) (*joinRig, error) {
 			return &batchv1.Job{ObjectMeta: om(ns, nm), Spec: batchv1.JobSpec{Selector: lselOf(e10Sels[rng.Intn(len(e10Sels))], rng), Template: tmpl(rng)}}
 		}, "job")
 		g.mkJoin = func() (joinInst, error) {
-			c, err := join.JobPods(g.ctx, src, pods)
+			c, err := join.JobPods(g.jctx(), src, pods)
 			if err != nil {
 				return joinInst{}, err
 			}
@@ -457,7 +476,7 @@ func newJoinRig(kind string, core *kit.Core) (*joinRig, error) {
 			g.mutDst = g.mutMid
 			g.mutMid = nil
 			g.mkJoin = func() (joinInst, error) {
-				c, err := join.IngressServices(g.ctx, src, svcs)
+				c, err := join.IngressServices(g.jctx(), src, svcs)
 				if err != nil {
 					return joinInst{}, err
 				}
@@ -473,7 +492,7 @@ func newJoinRig(kind string, core *kit.Core) (*joinRig, error) {
 			}
 		} else {
 			g.mkJoin = func() (joinInst, error) {
-				c, err := join.IngressPods(g.ctx, src, svcs, pods)
+				c, err := join.IngressPods(g.jctx(), src, svcs, pods)
 				if err != nil {
 					return joinInst{}, err
 				}
@@ -490,6 +509,11 @@ func newJoinRig(kind string, core *kit.Core) (*joinRig, error) {
 		}
 	default:
 		return nil, fmt.Errorf("unknown join %s", kind)
+	}
+	g.emptySrc = func() {
+		for _, o := range g.srcSrv.Objects() {
+			g.srcSrv.Delete(o.GetNamespace(), o.GetName())
+		}
 	}
 	return g, nil
 }
@@ -515,12 +539,55 @@ func e10Case(kind string, seed uint64, n int) Case {
 			plan.Targets = map[string]time.Duration{[]string{"refiltering...", "update:", "distribute event", "update event"}[rng.Intn(4)]: 60 * time.Microsecond}
 		}
 		core := kit.NewCore(plan)
-		g, err := newJoinRig(kind, core)
+		lateDst := n%4 == 3 && kind != "ingress-service"
+		var dl time.Duration
+		if lateDst {
+			dl = 2 * time.Second
+		}
+		g, err := newJoinRig(kind, core, dl)
 		if err != nil {
 			r.Inc("building bases: " + err.Error())
 			return
 		}
 		defer g.cancel()
+		if lateDst {
+			// the join is created while the destination's first list is still in
+			// flight and the (possibly empty) source is already ready
+			if n%8 == 3 {
+				g.mutSrc(rng)
+			}
+			for i, rd := range g.basesReady {
+				if i > 0 {
+					waitCh(rd, virtBound)
+				}
+			}
+			core.Barrier()
+			early, err := g.mkJoin()
+			if err != nil {
+				r.V("C09", "join-create-error", "creating join %s before the destination is ready: %v", kind, err)
+				return
+			}
+			if isClosed(early.ready) {
+				r.V("C09", "join-ready-before-bases", "join %s is ready although the destination controller's first list is still in flight", kind)
+			}
+			for _, rd := range g.basesReady {
+				waitCh(rd, virtBound)
+			}
+			core.Barrier()
+			r.Add("late-destination-joins", 1)
+			if !isClosed(early.ready) {
+				r.V("C09", "join-not-ready", "join %s created before the destination was ready (source ready, %d source objects) is still not ready at quiescence after both became ready", kind, len(g.srcSrv.Objects()))
+			} else if want, e1 := g.expect(); e1 == nil {
+				if got, e2 := early.list(); e2 == nil && !got.Equal(want) {
+					r.V("C09", "join-content-wrong", "join %s created before the destination was ready holds %v, expected %v", kind, got, want)
+				}
+			}
+			if !within(early.close) {
+				r.V("C09", "join-close-hang", "join %s: Close() hung", kind)
+				return
+			}
+			core.Barrier()
+		}
 		mutAny := func() string {
 			switch x := rng.Intn(10); {
 			case x < 4:
@@ -548,7 +615,26 @@ func e10Case(kind string, seed uint64, n int) Case {
 			for i := 0; i < 3; i++ {
 				trace = append(trace, mutAny())
 			}
+			var jcancel context.CancelFunc
+			g.joinCtx = nil
+			if cyc%2 == 1 {
+				// the context given to the join only carries the logger; it may end
+				// long before the join is closed
+				var jc context.Context
+				jc, jcancel = context.WithCancel(context.Background())
+				g.joinCtx = logutil.NewContext(jc, g.log)
+			}
+			if cyc == 2 || (cyc > 2 && rng.Chance(20)) {
+				// the join is created over an EMPTY source
+				g.emptySrc()
+				core.Barrier()
+				r.Add("empty-source-joins", 1)
+			}
 			ji, err := g.mkJoin()
+			if jcancel != nil {
+				jcancel()
+				r.Add("join-context-cancelled-early", 1)
+			}
 			if err != nil {
 				r.V("C09", "join-create-error", "creating join %s over running bases: %v", kind, err)
 				return
